@@ -532,6 +532,11 @@ func TestVerifC04(t *testing.T) {
 		vs.E1(t, "scripted-peer", env.Pick(2, 3), vs.Options{}, func() vs.Verdict { return c04Scripted() }),
 		vs.E1(t, "streamable/abandoned-nested-call/no-standalone-stream", env.Pick(1, 2), vs.Options{}, func() vs.Verdict { return c10UpcallCancel("c04 nested-cancel", false, false) }),
 		vs.E1(t, "streamable/abandoned-nested-call", env.Pick(1, 2), vs.Options{}, func() vs.Verdict { return c10UpcallCancel("c04 nested-cancel", false, true) }),
+		// the client cancels the outer call and abandons its exchange while the handler's nested request
+		// is being handled by the client: the nested request's own cancellation must still get through
+		vs.E1(t, "streamable/outer-call-cancelled-during-nested-call", env.Pick(1, 2), vs.Options{}, func() vs.Verdict {
+			return c10UpcallCancelBy("c04 outer-cancel", false, true, true)
+		}),
 		vs.E1(t, "streamable/late-response-on-broken-stream", env.Pick(1, 2), vs.Options{}, func() vs.Verdict { return c04LateResponseWrite() }),
 		vs.E1(t, "raw-server/cancel-by-id/2025-06-18", env.Pick(1, 2), vs.Options{}, func() vs.Verdict { return c04RawServer("2025-06-18") }),
 	}
